@@ -24,7 +24,8 @@ import (
 // by name and then trusts the arity or the types the compiler would have enforced meets a call
 // that does not have them.
 var illKinds = []string{"noargs", "droplast", "intfirst", "nilfirst", "extra", "undeffirst", "strlits", "noimports", "swapargs", "callfirst",
-	"undeftypes", "undefsel", "undeffun", "nobodies", "noresults", "extrarhs", "noelts", "undefelts"}
+	"undeftypes", "undefsel", "undeffun", "nobodies", "noresults", "extrarhs", "noelts", "undefelts",
+	"emptyrecv", "badrecv", "methodize"}
 
 // cmdIlltype copies the example directories of all checkers into the scratch module, once
 // per kind, and prints the relative package directories.
@@ -134,6 +135,22 @@ func illMutate1(path, kind string) ([]byte, int, error) {
 		case *ast.FuncDecl:
 			if kind == "nobodies" && x.Body != nil {
 				x.Body = nil
+				n++
+			}
+			switch {
+			case kind == "emptyrecv" && x.Recv != nil:
+				// `func () M()`: a syntax error, but the parser still delivers the declaration
+				x.Recv.List = nil
+				n++
+			case kind == "badrecv" && x.Recv != nil && len(x.Recv.List) > 0:
+				// receivers that are not (pointers to) type names
+				alts := []ast.Expr{&ast.ArrayType{Elt: ast.NewIdent("int")}, &ast.SelectorExpr{X: ast.NewIdent("fmt"), Sel: ast.NewIdent("Stringer")},
+					&ast.StarExpr{X: &ast.MapType{Key: ast.NewIdent("string"), Value: ast.NewIdent("int")}}, &ast.FuncType{Params: &ast.FieldList{}}, &ast.StarExpr{X: &ast.StarExpr{X: ast.NewIdent("int")}}}
+				x.Recv.List[0].Type = alts[n%len(alts)]
+				n++
+			case kind == "methodize" && x.Recv == nil && x.Name.Name != "main" && x.Name.Name != "init":
+				// every function becomes a method of a type that does not exist, receiver unnamed
+				x.Recv = &ast.FieldList{List: []*ast.Field{{Type: &ast.StarExpr{X: ast.NewIdent("undefinedRecvT")}}}}
 				n++
 			}
 		case *ast.ReturnStmt:
